@@ -73,6 +73,10 @@ type ShardOptions struct {
 	// guard (confirmed by 2 isolated re-runs) into a violation with the returned signature;
 	// nil → such cases are inconclusive.
 	AbnormalSig func(key, why, tail string) (sig, what string)
+	// Group, when non-nil, partitions the keys: a worker process only ever handles keys of one
+	// group (for process-global settings that must not change while goroutines of an earlier
+	// case may still be alive).
+	Group func(key string) string
 }
 
 const shardPrefix = "@@SHARD "
@@ -105,18 +109,50 @@ func RunSharded(run *Run, keys []string, o ShardOptions, caseFn func(key string,
 	if len(want) == 0 {
 		return
 	}
-	if o.Shards > len(want) {
-		o.Shards = len(want)
+	var shards [][]string
+	if o.Group != nil {
+		groups := map[string][]string{}
+		var order []string
+		for _, k := range want {
+			g := o.Group(k)
+			if _, ok := groups[g]; !ok {
+				order = append(order, g)
+			}
+			groups[g] = append(groups[g], k)
+		}
+		// split every group into pieces so that about o.Shards workers run at a time
+		per := (len(want) + o.Shards - 1) / o.Shards
+		if per < 1 {
+			per = 1
+		}
+		for _, g := range order {
+			ks := groups[g]
+			for len(ks) > 0 {
+				n := per
+				if n > len(ks) {
+					n = len(ks)
+				}
+				shards = append(shards, ks[:n])
+				ks = ks[n:]
+			}
+		}
+	} else {
+		if o.Shards > len(want) {
+			o.Shards = len(want)
+		}
+		shards = make([][]string, o.Shards)
+		for i, k := range want {
+			shards[i%o.Shards] = append(shards[i%o.Shards], k)
+		}
 	}
-	shards := make([][]string, o.Shards)
-	for i, k := range want {
-		shards[i%o.Shards] = append(shards[i%o.Shards], k)
-	}
+	sem := make(chan struct{}, o.Shards)
 	var wg sync.WaitGroup
 	for _, sh := range shards {
 		wg.Add(1)
 		go func(sh []string) {
 			defer wg.Done()
+			sem <- struct{}{}
+			defer func() { <-sem }()
 			rest := sh
 			for len(rest) > 0 {
 				bad, why, tail, done := runWorker(run, rest, o, false)
@@ -188,6 +224,13 @@ func runWorker(run *Run, keys []string, o ShardOptions, isolated bool) (bad, why
 		close(lines)
 	}()
 	var tailBuf []string
+	lastPos := ""
+	withPos := func(t []string) string {
+		if lastPos != "" {
+			t = append([]string{lastPos}, t...)
+		}
+		return strings.Join(t, "\n")
+	}
 	current := ""
 	timer := time.NewTimer(o.PerCaseTimeout)
 	defer timer.Stop()
@@ -204,11 +247,15 @@ func runWorker(run *Run, keys []string, o ShardOptions, isolated bool) (bad, why
 					if current == "" && done < len(keys) {
 						current = keys[done]
 					}
-					return current, fmt.Sprintf("died (%v)", err), strings.Join(tailBuf, "\n"), done
+					return current, fmt.Sprintf("died (%v)", err), withPos(tailBuf), done
 				}
 				return "", "", "", done
 			}
 			if !strings.HasPrefix(ln, shardPrefix) {
+				if strings.HasPrefix(ln, "P ") {
+					lastPos = ln
+					continue
+				}
 				tailBuf = append(tailBuf, ln)
 				if len(tailBuf) > 60 {
 					tailBuf = tailBuf[len(tailBuf)-60:]
@@ -235,7 +282,7 @@ func runWorker(run *Run, keys []string, o ShardOptions, isolated bool) (bad, why
 				done++
 			case "trip":
 				kill()
-				return m.Case, m.Why, strings.Join(tailBuf, "\n"), done
+				return m.Case, m.Why, withPos(tailBuf), done
 			}
 		case <-timer.C:
 			// ask for a goroutine dump first, then kill
@@ -262,7 +309,7 @@ func runWorker(run *Run, keys []string, o ShardOptions, isolated bool) (bad, why
 			if current == "" && done < len(keys) {
 				current = keys[done]
 			}
-			return current, fmt.Sprintf("no progress for %v (hang?)", o.PerCaseTimeout), strings.Join(tailBuf, "\n"), done
+			return current, fmt.Sprintf("no progress for %v (hang?)", o.PerCaseTimeout), withPos(tailBuf), done
 		}
 	}
 }
